@@ -7,7 +7,9 @@ prop("C17",
                 "partial persistent inspect failures, wherever the failing entries sort and in whichever directory); "
                 "interleaved_sweep_removes_only_judged_dead / reassigned_to_running_survives (environment moves landing during inspect "
                 "calls: a removed file holds, when removed, what was read in the same iteration and its owner was judged dead); "
-                "outage_keeps_everything; rounds_bound (1 round "
+                "later_round_judges_current_state (whatever rounds ran before under whatever answers, a round keeps every entry "
+                "whose owner is not dead NOW - the harness runs a third round on the same collector with the dead containers "
+                "running again); outage_keeps_everything; rounds_bound (1 round "
                 "per directory list); port_mappings_of_dead_cleaned. Tied to /repo by factgen `gc` (state strings, the decision "
                 "table of shouldCleanup as the condition paths of every `return true`, shouldCleanupFailsSafe, collector shape) and "
                 "by differential correspondence of the real flannelGC single-pass entry points against gxdrv_gc, docker branch "
